@@ -170,7 +170,8 @@ where
 ///
 /// This function compares grouped data (e.g., output from `group_by_key`) where
 /// each key maps to a vector of values. The keys are compared in sorted order,
-/// and the value vectors are compared as unordered sets.
+/// and the value vectors are compared as unordered multisets. Groups that share a key
+/// are matched with each other in any order.
 ///
 /// # Panics
 ///
@@ -201,23 +202,48 @@ where
         actual.len()
     );
 
-    for (i, ((ak, av), (ek, ev))) in actual.iter().zip(expected.iter()).enumerate() {
-        assert_eq!(
-            ak, ek,
-            "Key mismatch at index {i}:\n  Expected: {ek:?}\n  Actual: {ak:?}"
-        );
+    // The sort is by key only, so groups that share a key stay in input order. Compare each run of
+    // equal keys as a multiset of groups: every actual group must pair up with its own expected group
+    // of the same run that has the same values as a multiset (a run has length 1 when keys are unique).
+    let same_values = |av: &Vec<V>, ev: &Vec<V>| {
+        av.iter().collect::<HashSet<_>>() == ev.iter().collect::<HashSet<_>>()
+            && first_count_mismatch(av, ev).is_none()
+    };
+    let mut start = 0;
+    while start < actual.len() {
+        let mut end = start + 1;
+        while end < actual.len() && actual[end].0 == actual[start].0 {
+            end += 1;
+        }
+        let mut used = vec![false; end - start];
+        for i in start..end {
+            let (ak, av) = &actual[i];
+            let partner = (start..end).find(|&j| {
+                !used[j - start] && expected[j].0 == *ak && same_values(av, &expected[j].1)
+            });
+            if let Some(j) = partner {
+                used[j - start] = true;
+                continue;
+            }
+            // Report against the first expected group of the run that is still unpaired.
+            let (ek, ev) = &expected[(start..end).find(|&j| !used[j - start]).unwrap_or(i)];
+            assert_eq!(
+                ak, ek,
+                "Key mismatch at index {i}:\n  Expected: {ek:?}\n  Actual: {ak:?}"
+            );
 
-        let av_set: HashSet<_> = av.iter().collect();
-        let ev_set: HashSet<_> = ev.iter().collect();
+            let av_set: HashSet<_> = av.iter().collect();
+            let ev_set: HashSet<_> = ev.iter().collect();
 
-        assert_eq!(
-            av_set, ev_set,
-            "Value mismatch for key {ak:?} at index {i}:\n  Expected values: {ev:?}\n  Actual values: {av:?}"
-        );
-        assert!(
-            first_count_mismatch(av, ev).is_none(),
-            "Value multiplicity mismatch for key {ak:?} at index {i}:\n  Expected values: {ev:?}\n  Actual values: {av:?}"
-        );
+            assert_eq!(
+                av_set, ev_set,
+                "Value mismatch for key {ak:?} at index {i}:\n  Expected values: {ev:?}\n  Actual values: {av:?}"
+            );
+            panic!(
+                "Value multiplicity mismatch for key {ak:?} at index {i}:\n  Expected values: {ev:?}\n  Actual values: {av:?}"
+            );
+        }
+        start = end;
     }
 }
 
